@@ -14,7 +14,7 @@ PROP = 'C09'
 MANIFEST = dict(
     technique='TLA+ model (Alias: class schemas, heap cells, deep copy with fresh cells, in-place mutation, operators) checked by TLC; every TLC-enumerated (class, optional blocks, copy target, cell or method, side) case executed on real objects; real heap walks and export text validated by TLC (AliasTrace)',
     category='model_checking',
-    text='The class schemas of Entity / Solid / Side (with DispVertex, UVAxis) / Output / VisGroup / Keyvalues / EntityFixup / FixupValue are constants of the specification. TLC checks on the model that a copy reaches no cell of its source, exports identically (IDs and map aside), and that every in-place mutation of any cell or by any mutating method on one side leaves the other side\'s export unchanged, for every combination of optional blocks (displacement, multiblend, strata points, fixups, outputs, brushes, visgroup children, nested keyvalues) and both copy targets. Every such case is executed on real objects: the driver walks the real heap (attributes, slots, containers) of original and copy, TLC requires the set of shared mutable cells to be empty, every object to have exactly the fields of its schema, the copy to carry every field and export key of the source apart from IDs, and the untouched side to be unchanged after each mutation (all real cells, not only the model\'s; seeded multi-step mutation sequences; copies made by collapse_one). 38 operator/operand-type combinations (Keyvalues +, Vec/Angle/Matrix arithmetic incl. frozen types) are executed with operand snapshots before/after. The Keyvalues mutators are covered by a second model (KvTree: append, set, delete, extend, +=, +, copy-then-mutate at every depth, ensure_exists, merge_children, set_key paths, lookups), all ~41k transitions replayed on real Keyvalues objects.',
+    text='The class schemas of every class of srctools.vmf that can be copied - Entity / Solid / Side (with DispVertex, UVAxis) / Output / VisGroup / EntityGroup / Camera / Cordon / UVAxis / EntityFixup (copy.copy, copy.deepcopy; with FixupValue) - and of Keyvalues are constants (the set of classes defining copy/__copy__/__deepcopy__ and their declared fields is read reflectively from the code on every run and must coincide with the root classes and schemas of the model, else machinery failure) of the specification. TLC checks on the model that a copy reaches no cell of its source, exports identically (IDs and map aside), and that every in-place mutation of any cell or by any mutating method on one side leaves the other side\'s export unchanged, for every combination of optional blocks (displacement, multiblend, strata points, fixups, outputs, brushes, visgroup children, nested keyvalues) and both copy targets. Every such case is executed on real objects: the driver walks the real heap (attributes, slots, containers) of original and copy, TLC requires the set of shared mutable cells to be empty, every object to have exactly the fields of its schema, the copy to carry every field and export key of the source apart from IDs, and the untouched side to be unchanged after each mutation (all real cells, not only the model\'s; seeded multi-step mutation sequences; copies made by collapse_one). 38 operator/operand-type combinations (Keyvalues +, Vec/Angle/Matrix arithmetic incl. frozen types) are executed with operand snapshots before/after. The Keyvalues mutators are covered by a second model (KvTree: append, set, delete, extend, +=, +, copy-then-mutate at every depth, ensure_exists, merge_children, set_key paths, lookups), all ~41k transitions replayed on real Keyvalues objects.',
     design_ref='4 (C09)',
     note='Trusts TLC, the generic heap walker (slots, __dict__, list/dict/set/array items; VMF objects are context, not content) and SHA-1 digests of walks/exports used for the before/after comparison of mutation records. Displacements of power 1, lists of 2 elements; float content is compared by repr, no arithmetic is judged. Pure-Python tree only.',
 )
@@ -77,8 +77,25 @@ def run(tier: str, seed: int) -> int:
         if not {'copy', 'cell', 'method', 'binop'} <= set(ops):
             raise MachineryError(f'vacuous model: actions never taken: {ops}')
         classes = {e['cls'] for e in edges}
-        if classes != {'Entity', 'Solid', 'Side', 'Output', 'VisGroup', 'Keyvalues', 'Operator'}:
-            raise MachineryError(f'classes explored: {classes}')
+        # coverage handshake with the code: every class of srctools.vmf (and Keyvalues) that defines copy(),
+        # __copy__() or __deepcopy__() must be a root class of the model, probed through each of its copy
+        # entry points, and the fields its definition declares must be the fields the heap walk sees
+        inv = json.loads(core.run_driver('c09_driver.py', ['inventory'], env=env).strip().splitlines()[-1])
+        hows = {}
+        for e in edges:
+            hows.setdefault(e['cls'], set()).add(e['how'])
+        for name, d in sorted(inv['classes'].items()):
+            if name not in classes or name not in inv['probed']:
+                raise MachineryError(f'copyable class {name} ({d["how"]}) has no probe in the Alias model / driver')
+            need = {'copy': 'same', '__copy__': 'copy', '__deepcopy__': 'deepcopy'}
+            missing = [m for m in d['how'] if need[m] not in hows[name]]
+            if missing:
+                raise MachineryError(f'{name}: copy entry points {missing} are not exercised (model has {sorted(hows[name])})')
+            if sorted(d['fields']) != inv['walked'].get(name):
+                raise MachineryError(f'{name}: declared fields {d["fields"]} but the heap walk sees {inv["walked"].get(name)}')
+        if classes != set(inv['classes']) | {'Operator'}:
+            raise MachineryError(f'classes explored {sorted(classes)} but the code has {sorted(inv["classes"])}')
+        cov['copyable_classes'] = {n: d['how'] for n, d in sorted(inv['classes'].items())}
         ef = work.path('edges.json')
         ef.write_text(json.dumps(edges))
         cases = sorted({(e['cls'], tuple(sorted(e['opts'])), e['how']) for e in edges if e['cls'] != 'Operator'})
